@@ -47,3 +47,14 @@ def hash_ordered_axes(func, names_a, names_b):
 
 def alphabetical_axes(func, names):
     return productmap(func, variables=sorted(names))
+
+
+def skips_arguments_with_defaults(func):
+    # positive control for R16.DEFAULTS: arguments that have a default value are treated as optional
+    import inspect
+
+    return {
+        name
+        for name, spec in inspect.signature(func).parameters.items()
+        if spec.default is inspect.Parameter.empty
+    }
